@@ -73,11 +73,14 @@ def PLS.rows (l : PLS α) : List (Option (List (String × List α))) :=
 
 /-! ### ext_array.py : construction -/
 
+/-- the one empty chunk a zero-chunk array is normalised to (`pa.array([], type)`) -/
+def emptyChunk (ty : List (String × String)) : PStruct α :=
+  { valid := [], kids := ty.map fun p => { name := p.1, ty := p.2, list := { offs := [0], valid := [], vals := [] } } }
+
 /-- `NestedExtensionArray.__init__` on struct input (ext_array.py:658-677), after the chunk
     normalisation: at least one chunk. -/
 def NArr.init (c : PCol α) (validate : Bool := true) : R (PCol α) := do
-  let c := if c.chunks.isEmpty then { c with chunks := [{ valid := [], kids := c.ty.map fun (n, t) =>
-              { name := n, ty := t, list := { offs := [0], valid := [], vals := [] } } }] } else c
+  let c := if c.chunks.isEmpty then { c with chunks := [emptyChunk c.ty] } else c
   if validate then c.validate
   pure c
 
